@@ -58,8 +58,8 @@ def main(argv=None):
     if a.only:
         want = set(a.only.split(","))
         clauses = [c for c in clauses if c.name in want]
-    merged, broken = engine.run_clauses(prop, clauses, seed=seed,
-                                        workers=a.workers)
+    merged, broken = engine.run_clauses(prop, clauses, seed=seed, workers=a.workers,
+                                        fresh=getattr(mod, "FRESH_WORKERS", False))
     wall = time.time() - t0
 
     tot = {"evals": 0, "nt": 0, "states": 0, "transitions": 0, "traces": 0,
